@@ -11,7 +11,7 @@ use rtcp_types::*;
 pub const ENTRY_NAMES: [&str; 16] =
     ["Compound", "Packet", "App", "Bye", "Rr", "Sdes", "Sr", "Tfb", "Pfb", "Unknown", "ReportBlock", "Nack", "Fir", "Sli", "Rpsi", "Pli"];
 
-pub const PROBE_NAMES: [&str; 11] = [
+pub const PROBE_NAMES: [&str; 12] = [
     "accepted_padding_count_gt_body",
     "input_priv_prefix_len_ge_item_len",
     "fci_parser_accepted_len_not_multiple_of_4",
@@ -23,6 +23,7 @@ pub const PROBE_NAMES: [&str; 11] = [
     "priv_item_accepted",
     "two_iterators_interleaved",
     "deliveries_with_bystander_traffic",
+    "deliveries_after_a_caught_writer_panic",
 ];
 
 #[derive(Clone, Debug)]
@@ -52,7 +53,7 @@ pub struct Obs {
     pub events: u64,
     pub fail: Option<Fail>,
     pub accepted: u32,
-    pub probes: [u64; 11],
+    pub probes: [u64; 12],
     pub iter_bound: usize,
     /// a bystander: other, well-formed packets are parsed and read on the same thread between the
     /// calls of this delivery's read-out (what a receiver handling two sessions does)
@@ -61,7 +62,7 @@ pub struct Obs {
 
 impl Obs {
     pub fn new(log: bool) -> Obs {
-        Obs { hash: FNV_INIT, log: if log { Some(Vec::new()) } else { None }, cur: "", events: 0, fail: None, accepted: 0, probes: [0; 11], iter_bound: 32, beside: false }
+        Obs { hash: FNV_INIT, log: if log { Some(Vec::new()) } else { None }, cur: "", events: 0, fail: None, accepted: 0, probes: [0; 12], iter_bound: 32, beside: false }
     }
     #[inline]
     pub fn op(&mut self, name: &'static str) {
@@ -1248,10 +1249,41 @@ fn priv_probe(o: &mut Obs, d: &[u8]) {
     }
 }
 
+/// A third-party writer that announces less than it writes: `write_into` hands it a buffer cut
+/// to the announced size and the write unwinds (the documented panic of
+/// `write_into_unchecked`).  The application catches it; a component that failed elsewhere on
+/// the thread (or in the process) must not take the parsers down with it.
+#[derive(Debug)]
+struct LyingWriter;
+
+impl RtcpPacketWriter for LyingWriter {
+    fn calculate_size(&self) -> Result<usize, RtcpWriteError> {
+        Ok(8)
+    }
+    fn write_into_unchecked(&self, buf: &mut [u8]) -> usize {
+        buf[..4].copy_from_slice(&[0x80, 250, 0, 2]);
+        buf[11] = 1;
+        12
+    }
+    fn get_padding(&self) -> Option<u8> {
+        None
+    }
+}
+
+fn neighbour_fails() {
+    let mut buf = [0u8; 32];
+    let _ = guarded(|| LyingWriter.write_into(&mut buf).is_ok());
+}
+
 /// One delivery: the whole read-out history of the receiver for datagram `d`.
 /// Returns Err on a panic (with the op in flight) -- other failures are left in `o.fail`.
 pub fn deliver(d: &[u8], t: &mut Tape, o: &mut Obs) -> Result<(), (PanicInfo, &'static str)> {
     o.iter_bound = 5 * d.len() + 32;
+    if t.choose(32) == 31 {
+        // fault: a neighbouring component unwinds (and is caught) just before this delivery
+        neighbour_fails();
+        o.probes[11] += 1;
+    }
     o.beside = t.choose(4) == 3;
     if o.beside {
         o.probes[10] += 1;
